@@ -201,4 +201,22 @@ PROPS = {
         "nontrivial": lambda r: True,
         "assumptions": [],
     },
+    "C06": {
+        "coq": "Properties/C06.v",
+        "level_text": "C06_changeprog_honest / C06_update_honest / C06_install_honest prove for every message the encoder model produces that the header "
+                      "length field equals the true byte length and the count fields the number of records; C06_updates_parse_back that the 13-byte update "
+                      "records parse back, under libccp's packed layout, to exactly the (class, index, value) updates given, in order; "
+                      "C06_unrepresentable_length_fails that an over-long message is refused. Acceptance by libccp is observed: the bytes portus produces are fed to "
+                      "the compiled libccp 1.2.0 C code and to the Coq model of it, and return codes, staged values and register dumps are compared.",
+        "level_note": "Coq kernel; no axioms; encoder model validated differentially through the loop stream (handle commands) and this stream; libccp 1.2.0 (vendored, "
+                      "checksummed, compiled unmodified with gcc under a scripted clock) is the reference datapath: an oracle, not verified.",
+        "streams": ["c06"],
+        "rule": "update lists of every 7th length 0..300 (thorough: all) plus 126..129, 221..223, 254..257 in change-program and update-fields messages; 22 register kinds "
+                "(every class, boundary indices, immediates) x 5 boundary values; programs of 1..4000 statements (image sizes straddling 65535 bytes and libccp's "
+                "255-instruction limit); each message is read by the real libccp and by its model, then an invocation shows the staged values; "
+                "non-trivial = libccp accepted at least one message of the case (M0) — distinct by script",
+        "nontrivial": lambda r: " M0" in r["impl"] or r["cmd"] == "ctlser",
+        "assumptions": ["u32 overflow of the length formulas needs >= 2^28 records (a 4 GiB message): outside the modelled domain",
+                        "libccp reads the update-fields count as one signed byte and accepts at most 222 updates: beyond that it refuses the message (observed, modelled)"],
+    },
 }
